@@ -3,7 +3,7 @@
    hy_compile, compile and eval opaque. *)
 From HyV Require Import State.EvalRestore State.EvalRestoreParam.
 
-Definition eval2_prog : prog := {| pfuns := [("hy_eval", hy_eval_def)]; pmro := []; pvars := [] |}.
+Definition eval2_prog : prog := {| pfuns := [("hy_eval", hy_eval_def)]; pmro := []; pvars := []; pmatch := table_match [] |}.
 
 (* the body splits into a prefix (module / filename / source / hy_compile / globals defaulting)
    and its last two statements *)
